@@ -235,6 +235,11 @@ func runC10(c *c10Case) (v verdict, sig string, err error) {
 
 func c10Round(c *c10Case, dir string, round int) error {
 	cache := newFlowCache(c.Proto)
+	// one peer-lookup service object for all lookups, as the collector registers one for all peer connections
+	var peer *ipfix.IRPC
+	if c.Proto == "ipfix" {
+		peer = ipfix.NewRPC(cache.ix)
+	}
 	nk := len(c.Slots)
 	started := make([]int32, nk)
 	done := make([]int32, nk)
@@ -358,7 +363,7 @@ func c10Round(c *c10Case, dir string, round int) error {
 					}
 					lo := atomic.LoadInt32(&done[k])
 					var resp ipfix.TemplateRecord
-					gerr := ipfix.NewRPC(cache.ix).Get(ipfix.RPCRequest{ID: sl.ID, IP: wire.ExactIP(sl.Addr)}, &resp)
+					gerr := peer.Get(ipfix.RPCRequest{ID: sl.ID, IP: wire.ExactIP(sl.Addr)}, &resp)
 					if gerr != nil {
 						checkRange("peer Get", k, lo, 0, true)
 						continue
